@@ -15,7 +15,7 @@ from __future__ import annotations
 
 from .core import AnalysisError
 from .linesem import ref_line_col
-from .objmodel import ClassModel, maybe_install_re, new_parser_state
+from .objmodel import ClassModel, maybe_install_re, model_attr, new_parser_state
 from .ordabs import ModelRaise, Obj
 from .repo import Repo
 
@@ -77,7 +77,7 @@ def check_render(repo: Repo, where: str) -> tuple[int, list[tuple[str, str]]]:
                     ln, col = ref_line_col(text, p)
                     if f"{ln}:{col}" not in shown:
                         bad.append(("the message does not show the line:column of the recorded position", f"{desc}: the position is at {ln}:{col}; message {shown!r}"))
-                    names = set(state.furthest_expected) | set(state.furthest_unexpected)
+                    names = set(model_attr(cm, state, "furthest_expected")) | set(model_attr(cm, state, "furthest_unexpected"))
                     if not names <= {"r", "inner"}:
                         bad.append(("the failure lists a name that is not a rule on the rule stack", f"{desc}: {sorted(names)}"))
     # join_with_limit near its limit: the full join is tried with the *last* separator, the truncation loop counts with
